@@ -316,8 +316,12 @@ func directiveSecRequestBodyJsonDepthLimit(options *DirectiveOptions) error {
 // (block, deny, drop, allow, proxy and redirect)
 func directiveSecRuleEngine(options *DirectiveOptions) error {
 	engine, err := types.ParseRuleEngineStatus(options.Opts)
+	if err != nil {
+		// an invalid value must not leave the WAF with an undefined engine mode
+		return err
+	}
 	options.WAF.RuleEngine = engine
-	return err
+	return nil
 }
 
 func directiveUnsupported(options *DirectiveOptions) error {
@@ -1066,9 +1070,12 @@ func directiveSecRequestBodyNoFilesLimit(options *DirectiveOptions) error {
 		return errEmptyOptions
 	}
 
-	var err error
-	options.WAF.RequestBodyNoFilesLimit, err = strconv.ParseInt(options.Opts, 10, 64)
-	return err
+	limit, err := strconv.ParseInt(options.Opts, 10, 64)
+	if err != nil {
+		return err
+	}
+	options.WAF.RequestBodyNoFilesLimit = limit
+	return nil
 }
 
 // Description: Path to the Coraza debug log file.
